@@ -760,7 +760,10 @@ def _silence_task(chunk):
                 except Exception:  # noqa
                     o = None
                 if o is not None:
-                    _use(o)
+                    try:
+                        _use(o)
+                    except Exception:  # noqa - totality of accessors is C18's business, silence is ours
+                        pass
                 try:
                     cls.from_rh_vector("5.0/" + s)
                 except Exception:  # noqa
